@@ -127,16 +127,16 @@ Section Split.
   Variable n0 : N.
   Hypothesis clash_free : forall k, n0 <= k -> ~ In (Some (gen_name p k)) all.
 
-  Lemma split_names_inv : forall cs used n,
+  Lemma split_names_once_inv : forall cs used n,
     (forall x, In x used -> In (Some x) all \/ exists k, k < n /\ x = gen_name p k) ->
     incl cs all -> n0 <= n ->
-    NoDup (somes (fst (split_names p cs used n))) /\
-    (forall x, In x (somes (fst (split_names p cs used n))) -> ~ In x used).
+    NoDup (somes (fst (split_names_once p cs used n))) /\
+    (forall x, In x (somes (fst (split_names_once p cs used n))) -> ~ In x used).
   Proof.
     induction cs as [|c cs IH]; intros used n Inv Hi Hn.
     - cbn. split; [constructor | intros x []].
     - assert (incl cs all) as Hi' by (intros y Hy; apply Hi; right; exact Hy).
-      destruct c as [nm|]; cbn [split_names].
+      destruct c as [nm|]; cbn [split_names_once].
       + destruct (mem_str nm used) eqn:E.
         * (* duplicate: replaced by one generated name *)
           assert (~ In (gen_name p n) used) as Fr.
@@ -147,7 +147,7 @@ Section Split.
           { intros x [<-|Hx]; [right; exists n; split; [lia | reflexivity]|].
             destruct (Inv _ Hx) as [Ha|[k [Hk Ek]]]; [left; exact Ha | right; exists k; split; [lia | exact Ek]]. }
           destruct (IH (gen_name p n :: used) (N.succ n) Inv' Hi' ltac:(lia)) as [ND F].
-          destruct (split_names p cs (gen_name p n :: used) (N.succ n)) as [l n'] eqn:S. cbn [fst somes] in *.
+          destruct (split_names_once p cs (gen_name p n :: used) (N.succ n)) as [l n'] eqn:S. cbn [fst somes] in *.
           split.
           -- constructor; [|exact ND]. intro Hin. apply (F _ Hin). left. reflexivity.
           -- intros x [<-|Hx]; [exact Fr|]. intro Hu. apply (F _ Hx). right. exact Hu.
@@ -155,37 +155,37 @@ Section Split.
           assert (forall x, In x (nm :: used) -> In (Some x) all \/ exists k, k < n /\ x = gen_name p k) as Inv'.
           { intros x [<-|Hx]; [left; apply Hi; left; reflexivity | exact (Inv _ Hx)]. }
           destruct (IH (nm :: used) n Inv' Hi' Hn) as [ND F].
-          destruct (split_names p cs (nm :: used) n) as [l n'] eqn:S. cbn [fst somes] in *.
+          destruct (split_names_once p cs (nm :: used) n) as [l n'] eqn:S. cbn [fst somes] in *.
           split.
           -- constructor; [|exact ND]. intro Hin. apply (F _ Hin). left. reflexivity.
           -- intros x [<-|Hx]; [exact E|]. intro Hu. apply (F _ Hx). right. exact Hu.
       + destruct (IH used n Inv Hi' Hn) as [ND F].
-        destruct (split_names p cs used n) as [l n'] eqn:S. cbn [fst somes] in *. split; assumption.
+        destruct (split_names_once p cs used n) as [l n'] eqn:S. cbn [fst somes] in *. split; assumption.
   Qed.
 End Split.
 
-Theorem split_names_nodup p cols n :
+Theorem split_names_once_nodup p cols n :
   (forall k, n <= k -> ~ In (Some (gen_name p k)) cols) ->
-  NoDup (somes (fst (split_names p cols [] n))).
+  NoDup (somes (fst (split_names_once p cols [] n))).
 Proof.
-  intro H. apply (split_names_inv p cols n H cols [] n); [intros x [] | apply incl_refl | lia].
+  intro H. apply (split_names_once_inv p cols n H cols [] n); [intros x [] | apply incl_refl | lia].
 Qed.
 
-(* the repaired split (regenerate until unused) is collision-free for ALL inputs *)
-Theorem split_names_fixed_spec p : forall cols used n l n',
-  split_names_fixed p cols used n = Some (l, n') ->
+(* anchor_split as it is NOW (regenerate until unused) is collision-free for ALL inputs *)
+Theorem split_names_spec p : forall cols used n l n',
+  split_names p cols used n = Some (l, n') ->
   NoDup (somes l) /\ (forall x, In x (somes l) -> ~ In x used).
 Proof.
-  induction cols as [|c cs IH]; intros used n l n' H; cbn [split_names_fixed] in H.
+  induction cols as [|c cs IH]; intros used n l n' H; cbn [split_names] in H.
   - injection H as <- _. split; [constructor | intros x []].
   - destruct c as [nm|].
     + destruct (regen (S (S (length used))) p used (Some nm) n) as [[nm1 n1]|] eqn:R; [|discriminate].
-      destruct (split_names_fixed p cs (nm1 :: used) n1) as [[l1 n2]|] eqn:A; [|discriminate].
+      destruct (split_names p cs (nm1 :: used) n1) as [[l1 n2]|] eqn:A; [|discriminate].
       injection H as <- _. destruct (IH _ _ _ _ A) as [ND F]. pose proof (regen_fresh _ _ _ _ _ _ _ R) as Fr.
       cbn [somes]. split.
       * constructor; [|exact ND]. intro Hin. apply (F _ Hin). left. reflexivity.
       * intros x [<-|Hx]; [exact Fr|]. intro Hu. apply (F _ Hx). right. exact Hu.
-    + destruct (split_names_fixed p cs used n) as [[l1 n2]|] eqn:A; [|discriminate].
+    + destruct (split_names p cs used n) as [[l1 n2]|] eqn:A; [|discriminate].
       injection H as <- _. cbn [somes]. exact (IH _ _ _ _ A).
 Qed.
 
@@ -211,8 +211,45 @@ Proof.
   - exact (assign_names_length p decls [] n l n' A).
 Qed.
 
-Theorem split_names_fixed_nodup p cols n l n' : split_names_fixed p cols [] n = Some (l, n') -> NoDup (somes l).
-Proof. intro H. exact (proj1 (split_names_fixed_spec p cols [] n l n' H)). Qed.
+Theorem split_names_nodup p cols n l n' : split_names p cols [] n = Some (l, n') -> NoDup (somes l).
+Proof. intro H. exact (proj1 (split_names_spec p cols [] n l n' H)). Qed.
 
 Lemma not_nodup_witness (x : str) (l : list str) : In x l -> ~ NoDup (x :: l).
 Proof. intros Hin H. inversion H as [|y l' Hx _]. exact (Hx Hin). Qed.
+
+Theorem split_names_total p : forall cols used n, exists l n', split_names p cols used n = Some (l, n').
+Proof.
+  induction cols as [|c cs IH]; intros used n; cbn [split_names]; [eauto|].
+  destruct c as [nm|].
+  - destruct (regen_total p used (S (S (length used))) (Some nm) n) as (nm1 & n1 & R); [lia|]. rewrite R.
+    destruct (IH (nm1 :: used) n1) as (l & n2 & A). rewrite A. eauto.
+  - destruct (IH used n) as (l & n2 & A). rewrite A. eauto.
+Qed.
+
+Lemma split_names_length p : forall cols used n l n', split_names p cols used n = Some (l, n') -> length l = length cols.
+Proof.
+  induction cols as [|c cs IH]; intros used n l n' H; cbn [split_names] in H.
+  - injection H as <- _. reflexivity.
+  - destruct c as [nm|].
+    + destruct (regen (S (S (length used))) p used (Some nm) n) as [[nm1 n1]|]; [|discriminate].
+      destruct (split_names p cs (nm1 :: used) n1) as [[l1 n2]|] eqn:A; [|discriminate].
+      injection H as <- _. cbn [length]. f_equal. exact (IH _ _ _ _ A).
+    + destruct (split_names p cs used n) as [[l1 n2]|] eqn:A; [|discriminate].
+      injection H as <- _. cbn [length]. f_equal. exact (IH _ _ _ _ A).
+Qed.
+
+Theorem split_names_fresh p cols n :
+  exists l n', split_names p cols [] n = Some (l, n') /\ NoDup (somes l) /\ length l = length cols.
+Proof.
+  destruct (split_names_total p cols [] n) as (l & n' & A). exists l, n'. split; [exact A|]. split.
+  - exact (split_names_nodup p cols n l n' A).
+  - exact (split_names_length p cols [] n l n' A).
+Qed.
+
+(* a column name that is not taken earlier at the split keeps its name *)
+Theorem split_names_keeps p nm cs used n l n' :
+  ~ In nm used -> split_names p (Some nm :: cs) used n = Some (l, n') -> exists l', l = Some nm :: l'.
+Proof.
+  intros Hn H. cbn [split_names] in H. rewrite (regen_keeps p used _ nm n Hn) in H.
+  destruct (split_names p cs (nm :: used) n) as [[l1 n2]|]; [|discriminate]. injection H as <- _. eauto.
+Qed.
